@@ -433,6 +433,10 @@ func checkWellFormed(rep *Report, raw string, graphIDs map[string]bool, names ma
 	typedIDs(doc[0], &ids)
 	seen := map[string]bool{}
 	for _, id := range ids {
+		if id == "<typed node without @id>" {
+			bad = append(bad, "a typed node without @id")
+			continue
+		}
 		if seen[id] {
 			bad = append(bad, "duplicate @id "+id)
 		}
@@ -485,7 +489,7 @@ func checkWellFormed(rep *Report, raw string, graphIDs map[string]bool, names ma
 
 func C12(e *core.Env) {
 	res := e.Res
-	res.Rule = "cases = (profile, graph); profiles built from the C01 formula generator so that results carry several traces (or-branches), sub-results to depth <= 3 (quick) / 4 (thorough), a sub-result list of 70 / 150 entries, every atom kind plain and negated (incl. property-pair comparisons), several results per node and per level, with and without lexical locations; " +
+	res.Rule = "cases = (profile, graph); profiles built from the C01 formula generator so that results carry several traces (or-branches), sub-results to depth <= 3 (quick) / 4 (thorough), a sub-result list of 70 / 150 entries, every atom kind plain and negated (incl. property-pair comparisons), several results per node and per level, with and without lexical locations; typed literals (xsd:date, xsd:dateTime, xsd:long, a custom datatype) compared by property-pair constraints and echoed under actual / expected; validation names plain, with percent signs (followed by letters, digits, blanks), with quotes and non-ASCII letters; " +
 		"plus 16 YAML spellings of the message (absent, blank, null, number, boolean, date, sequence, mapping, tagged, quoted, block) and 12 goroutines x 4 (quick) / 25 (thorough) reports built at once from one compiled profile; each report: JSON shape, every @id of a typed node unique, focus nodes in the graph, names in the profile, message and trace non-empty, and the positional id scheme equal to the model's; non-trivial = the report has a result with a sub-result or more than one trace; distinct by (profile, graph)"
 	cnt := func(p string, k int) FForm {
 		return fAtom(FAtom{Kind: "count", Q: "min", Path: Pr(p, false), K: k})
@@ -609,6 +613,17 @@ func C12(e *core.Env) {
 	rc := config.DefaultReportConfiguration()
 	levels := []string{"violation", "warning", "info"}
 	batch := 3
+	// validation names: plain, with percent signs followed by letters / digits / a blank, with quotes and non-ASCII letters
+	vname := func(i int) string {
+		switch i % 5 {
+		case 3:
+			return fmt.Sprintf("v%d under-80%%-of-limit %%d %%s 100%% sure", i)
+		case 4:
+			return fmt.Sprintf("v%d/with \"quotes\", 'single' and ünï", i)
+		}
+		return fmt.Sprintf("v%d", i)
+	}
+	yq := func(s string) string { d, _ := json.Marshal(s); return string(d) }
 	for start := 0; start < len(forms); start += batch {
 		end := start + batch
 		if end > len(forms) {
@@ -620,16 +635,16 @@ func C12(e *core.Env) {
 		byLevel := map[string][]string{}
 		for i := start; i < end; i++ {
 			l := levels[i%3]
-			byLevel[l] = append(byLevel[l], fmt.Sprintf("v%d", i))
+			byLevel[l] = append(byLevel[l], vname(i))
 			if i%4 == 1 { // also listed under a second level
-				byLevel[levels[(i+1)%3]] = append(byLevel[levels[(i+1)%3]], fmt.Sprintf("v%d", i))
+				byLevel[levels[(i+1)%3]] = append(byLevel[levels[(i+1)%3]], vname(i))
 			}
 		}
 		for _, l := range levels {
 			if len(byLevel[l]) > 0 {
 				b.WriteString(l + ":\n")
 				for _, nme := range byLevel[l] {
-					b.WriteString("  - " + nme + "\n")
+					b.WriteString("  - " + yq(nme) + "\n")
 				}
 			}
 		}
@@ -641,8 +656,8 @@ func C12(e *core.Env) {
 				m["message"] = fmt.Sprintf("message of v%d for {{ex.p0}}", i)
 			}
 			d, _ := json.Marshal(m)
-			fmt.Fprintf(&b, "  v%d: %s\n", i, d)
-			names[fmt.Sprintf("v%d", i)] = true
+			fmt.Fprintf(&b, "  %s: %s\n", yq(vname(i)), d)
+			names[vname(i)] = true
 		}
 		profile := b.String()
 		for di, data := range datas {
@@ -679,6 +694,39 @@ func C12(e *core.Env) {
 			if start == 4 && di == 1 {
 				res.Sample(map[string]any{"profile": profile, "report_bytes": len(out), "results": len(rep.Results), "typed_nodes": strings.Count(out, "\"@id\"")})
 			}
+		}
+	}
+
+	// typed literals (dates, a custom datatype) compared by the property-pair constraints: the compared values are echoed in
+	// the trace values as typed objects, under `actual` AND under `expected`
+	{
+		profile := ProfileHeader + "violation:\n  - ordered\n  - same\nwarning:\n  - apart\nvalidations:\n" +
+			"  ordered:\n    targetClass: ex.T\n    message: start before end\n    propertyConstraints:\n      ex.start:\n        lessThanProperty: ex.end\n" +
+			"  same:\n    targetClass: ex.T\n    message: same\n    propertyConstraints:\n      ex.start:\n        equalsToProperty: ex.end\n" +
+			"  apart:\n    targetClass: ex.T\n    message: apart\n    propertyConstraints:\n      ex.start:\n        disjointWithProperty: ex.again\n"
+		const xsdNS = "http://www.w3.org/2001/XMLSchema#"
+		data := `{"@graph":[{"@id":"` + NodeID(0) + `","@type":"` + ExNS + `T",
+ "` + ExNS + `start":[{"@value":"2021-05-01","@type":"` + xsdNS + `date"},{"@value":"x","@type":"` + ExNS + `custom"}],
+ "` + ExNS + `end":[{"@value":"2020-01-01","@type":"` + xsdNS + `date"},{"@value":"2020-01-01T00:00:00Z","@type":"` + xsdNS + `dateTime"}],
+ "` + ExNS + `again":{"@value":"2021-05-01","@type":"` + xsdNS + `date"}},
+ {"@id":"` + NodeID(1) + `","@type":"` + ExNS + `T","` + ExNS + `start":{"@value":"3","@type":"` + xsdNS + `long"},"` + ExNS + `end":{"@value":"2","@type":"` + xsdNS + `long"},"` + ExNS + `again":{"@value":"3","@type":"` + xsdNS + `long"}}]}`
+		out, err := pkg.ValidateWithConfiguration(profile, data, false, nil, clockA, rc)
+		replay := map[string]any{"profile": profile, "data": data}
+		if err != nil {
+			replay["error"] = err.Error()
+			res.Violate("impl-violates-property", "validation fails: "+core.Trunc(err.Error(), 200), replay)
+		} else if rep, perr := ParseReport(out); perr != nil {
+			replay["report"] = core.Trunc(out, 6000)
+			res.Violate("impl-violates-property", "the report is not one dialect instance encoding one report node: "+perr.Error(), replay)
+		} else {
+			replay["report"] = core.Trunc(out, 6000)
+			if bad := checkWellFormed(rep, out, map[string]bool{NodeID(0): true, NodeID(1): true}, map[string]bool{"ordered": true, "same": true, "apart": true}); len(bad) > 0 {
+				replay["failed_predicates"] = bad
+				res.Violate("impl-violates-property", "report not well-formed (typed literals in trace values): "+bad[0], replay)
+			}
+			checkReportAgainstModel(e, rep, rc, clockA, replay)
+			res.Case("typed-literals-in-trace-values", strings.Contains(out, "traceValue_expected"))
+			res.Count("stream=typed-literals")
 		}
 	}
 
